@@ -760,11 +760,29 @@ def iterative_session(ctx, i, rng, return_logprobs=False, problem_kw=None):
     Inject.EVAL_LOG = []
     raised = None
     ret = None
+    first_ = int(opts.get("init_batch_size", opts.get("growth_factor", 128) * n_req))
+    if opts.get("randomize_prior_order") and 4 <= first_ < N and rng.random() < 0.3:
+        # a scripted visiting order (recgen.SCRIPT): the first batch has its smallest row first and its largest last, len - 1
+        # apart, with a shuffled interior - it "looks like" one ascending block to anything that only checks the end points
+        srng = np.random.default_rng(int(rng.integers(0, 2 ** 31)))
+
+        def _order(a, size, first_=first_, srng=srng):
+            lo = int(srng.integers(0, a - first_ + 1))
+            blk = np.arange(lo, lo + first_)
+            mid = srng.permutation(blk[1:-1])
+            if len(mid) > 1 and np.all(np.diff(mid) > 0):
+                mid = mid[::-1]
+            head = np.concatenate([[blk[0]], mid, [blk[-1]]])
+            rest = srng.permutation(np.setdiff1d(np.arange(a), blk))
+            return np.concatenate([head, rest])[:size]
+        recgen.SCRIPT["order"], recgen.SCRIPT["used"] = _order, 0
+        desc["scripted_visiting_order"] = True
     try:
         ret = joker.iterative_rejection_sample(pb.data, lib_arg, **dress_counts(rng, opts, desc))
     except Exception as e:
         raised = e
     finally:
+        recgen.SCRIPT["order"] = None
         Inject.active = None
         Inject.tagP = None
         Inject.tagger = None
